@@ -138,7 +138,7 @@ def summarise_ctor(it, init, obj, label):
             obj.fields[attr] = Ext(f"{label}.{attr}", "lib", role="instance")
 
 
-def build(ctx, hooks_cls=RobotHooks, use_teleop_in_autonomous=None):
+def build(ctx, hooks_cls=RobotHooks, use_teleop_in_autonomous=None, shapes=None):
     """-> (info, [worlds])  one world per resolution of robotInit's environment forks (simulation or not)"""
     prog = ctx.program
     it0 = Interp(prog)
@@ -183,7 +183,10 @@ def build(ctx, hooks_cls=RobotHooks, use_teleop_in_autonomous=None):
             # lists the constructor leaves empty are filled during start-up with user objects
             for k, v in list(robot.fields.items()):
                 if isinstance(v, ListV) and not v.items:
-                    lo = ListOf(Ext(f"robot.{k}[]", "user", role="elem"), label=f"robot.{k}")
+                    elem = Ext(f"robot.{k}[]", "user", role="elem")
+                    if shapes and k in shapes:
+                        elem = shapes[k](elem)  # record type found at the start-up code's append() to this list
+                    lo = ListOf(elem, label=f"robot.{k}")
                     robot.fields[k] = lo
             it.call(it.getattr(robot, "robotInit"), [], {})
             if use_teleop_in_autonomous is not None:
